@@ -479,6 +479,7 @@ func C13(p *core.Program, r *core.Report) {
 	wantAtoms := map[string]bool{
 		`$0.Type == html.ElementNode`:      true,
 		`$1 == nil`:                        true,
+		`$0 == nil`:                        true, // no document at all: an error (C01-T12)
 		`dom.QuerySelector($0,"*") == nil`: true,
 		atomNoURL:                          true,
 		o + `.PaginationAlgo == distiller.PageNumber`: true,
